@@ -7,7 +7,7 @@ from . import manifests as M
 
 PID = 'C05'
 PINS = C.load_pins('C05')
-PROOF_FILES = ['Proofs/CstProofs.v', 'Proofs/JsonWalkProofs.v', 'Proofs/TomlWalkProofs.v', 'Proofs/PyWalkProofs.v', 'Proofs/YamlWalkProofs.v', 'Proofs/GoModProofs.v', 'Proofs/ParserPins.v', 'Props/C05.v']
+PROOF_FILES = ['Proofs/CstProofs.v', 'Proofs/JsonWalkProofs.v', 'Proofs/TomlWalkProofs.v', 'Proofs/PyWalkProofs.v', 'Proofs/YamlWalkProofs.v', 'Proofs/GhaWalkProofs.v', 'Proofs/GoModProofs.v', 'Proofs/ParserPins.v', 'Props/C05.v']
 CLASS_FINDING = {
     'utf16': 'C05-byte-columns-sent-as-utf16',
     'gha-quoted-uses': 'C05-quoted-uses-range-shifted',
